@@ -36,6 +36,8 @@ pub struct ReplayCase {
     pub mutant: MutId,
 }
 
+pub const ALPHABET: &str = "ABCDEFGHIJKLMNOPQRSTUVWXYZabcdefghijklmnopqrstuvwxyz0123456789-_";
+
 pub fn tok_strategy<B: Backend>(public: bool, big: bool) -> impl Strategy<Value = TokCase> {
     let msg_len = if big { (100u32..=1200).boxed() } else { prop_oneof![4 => 0u32..=40, 1 => 41u32..=70].boxed() };
     let short = |max: u32| {
@@ -269,7 +271,10 @@ pub fn run_token<B: Backend>(acc: &mut Acc, c: &TokCase, filter: Option<&MutId>)
             {
                 let text = model::assemble(&format!("{}.{purpose}.", B::VER.v()), &built.payload, &built.footer);
                 let fb64 = crate::util::b64_encode(&built.footer);
-                let exts: Vec<String> = vec![".".into(), "..".into(), ".AAAA".into(), format!(".{fb64}"), ".AAAA.BBBB".into(), ". ".into(), ".not base64!".into(), " ".into(), "\n".into(), "=".into(), "\u{0}".into()];
+                let mut exts: Vec<String> = vec![".".into(), "..".into(), ".AAAA".into(), format!(".{fb64}"), ".AAAA.BBBB".into(), ". ".into(), ".not base64!".into(), " ".into(), "\n".into(), "=".into(), "\u{0}".into()];
+                // one more base64 character (a dangling sextet carries no byte): every alphabet character
+                exts.extend(ALPHABET.chars().map(|ch| ch.to_string()));
+                let pb64_end = text.len() - if built.footer.is_empty() { 0 } else { fb64.len() + 1 };
                 for (ei, ext) in exts.iter().enumerate() {
                     let id = MutId { class: "text-extension".into(), pos: ei as u32, arg: 0 };
                     if !want(&id) {
@@ -282,11 +287,17 @@ pub fn run_token<B: Backend>(acc: &mut Acc, c: &TokCase, filter: Option<&MutId>)
                     acc.eval();
                     acc.class("mutant:text-extension");
                     acc.nt(hash_of(&(c, &id)));
-                    let s2 = format!("{text}{ext}");
-                    let r = s2.parse::<SealedToken<V<B>, $P, Raw, Vec<u8>>>().and_then(|t| t.unseal(&$unsealkey, &built.assertion, &NoValidation::dangerous_no_validation()));
-                    if r.is_ok() {
-                        let rc = ReplayCase { tok: c.clone(), mutant: id.clone() };
-                        acc.fail(Fail::new(reject_sig::<B>(purpose, &id), format!("the token followed by {ext:?} was accepted")), serde_json::to_value(&rc).unwrap());
+                    // appended to the whole token, and (single characters) to the payload segment before the footer
+                    let mut variants = vec![format!("{text}{ext}")];
+                    if ext.len() == 1 && !built.footer.is_empty() {
+                        variants.push(format!("{}{ext}{}", &text[..pb64_end], &text[pb64_end..]));
+                    }
+                    for s2 in variants {
+                        let r = s2.parse::<SealedToken<V<B>, $P, Raw, Vec<u8>>>().and_then(|t| t.unseal(&$unsealkey, &built.assertion, &NoValidation::dangerous_no_validation()));
+                        if r.is_ok() {
+                            let rc = ReplayCase { tok: c.clone(), mutant: id.clone() };
+                            acc.fail(Fail::new(reject_sig::<B>(purpose, &id), format!("the token with {ext:?} appended to a segment was accepted: {}", s2.chars().rev().take(24).collect::<String>().chars().rev().collect::<String>())), serde_json::to_value(&rc).unwrap());
+                        }
                     }
                 }
             }
